@@ -92,6 +92,22 @@ def sigma_vector(draw, n):
 @st.composite
 def sigma_matrix(draw, n):
     """SPD matrix A A^T / n + c I with A on {-2..2}: condition number <= ~60"""
+    if draw(st.integers(0, 3)) == 0:
+        # equal variances with structured correlations: what a stationary noise model gives
+        # (AR(1) / Toeplitz, banded, block) -- exactly constant diagonal, non-uniform off-diagonal
+        c = draw(st.sampled_from([0.5, 1.0, 2.0]))
+        shape = draw(st.sampled_from(['ar1', 'band', 'block', 'uniform']))
+        rho = draw(st.sampled_from([0.5, 0.25, -0.25, 0.125]))
+        m = np.eye(n)
+        for i in range(n):
+            for j in range(n):
+                if i == j:
+                    continue
+                d = abs(i - j)
+                m[i, j] = {'ar1': rho ** d, 'band': rho if d == 1 else 0.0,
+                           'block': abs(rho) if (i < n // 2) == (j < n // 2) else 0.0,
+                           'uniform': abs(rho) / 2}[shape]
+        return (c * m).tolist()
     a = np.array(draw(gen.matrix(n, n, kind='grid', kmax=2)), dtype=float)
     c = draw(st.sampled_from([0.5, 1.0, 2.0]))
     m = a @ a.T / n + c * np.eye(n)
